@@ -5,7 +5,7 @@ use zksync_consensus_roles::validator::{max_faulty_weight, quorum_threshold, sub
 
 use serde_json::Value;
 
-use crate::util::{catch, Opts, Out, Prop};
+use vharness::{catch, Opts, Out, Prop};
 
 pub struct C07;
 
@@ -60,4 +60,8 @@ impl Prop for C07 {
             }
         }
     }
+}
+
+fn main() {
+    vharness::main_for(&mut C07);
 }
